@@ -28,7 +28,7 @@ pub fn run(args: &Args) -> i32 {
     .floor("c51:attempts_on_locked", 300)
     .floor("c51:locks_taken_by_script", 60);
     let mut report = Report::new(args, spec);
-    let steps = scaled(args, args.tier.pick(700, 8000));
+    let steps = scaled(args, args.tier.pick(6000, 80_000));
     let budget = Duration::from_secs(budget_secs(args.tier, 60, 900));
     report.run_shards(51, args.threads, budget, |i, rng, shard| {
         let mut w = World::new(shard, rng, 4);
